@@ -14,7 +14,6 @@ import (
 	"crypto/ed25519"
 	"encoding/json"
 	"fmt"
-	"os"
 	"time"
 
 	"github.com/matrix-org/gomatrixserverlib/spec"
@@ -32,7 +31,7 @@ type c18State struct {
 }
 
 func c18NewState(ctx *vfCtx, prefix string) *c18State {
-	return &c18State{ctx: ctx, prefix: prefix, seen: map[string]bool{}, quiet: os.Getenv("VF_C18_DISCOVER") != ""}
+	return &c18State{ctx: ctx, prefix: prefix, seen: map[string]bool{}}
 }
 
 // call runs exactly one library entry point under vfCatch. The signature is
@@ -51,7 +50,7 @@ func (s *c18State) call(op string, f func()) (panicked bool) {
 	switch {
 	case s.quiet:
 		s.ctx.findings = s.ctx.findings[:n]
-		s.ctx.Class("unjudged-panic/" + s.prefix + "/" + stem + "/via/" + op)
+		s.ctx.Class("unjudged-panic/" + stem)
 	case s.seen[fd.Sig]:
 		s.ctx.findings = s.ctx.findings[:n]
 		s.ctx.Class("again/" + stem)
